@@ -24,6 +24,12 @@ from collections import Counter
 from . import boot
 
 TIERS = ("quick", "thorough")
+
+
+def out_dir():
+    """Where evidence/, failures/ and .work/ are written: /verif, or a scratch directory named by VERIF_OUT
+    (used by the sensitivity driver so that runs against mutants never touch the committed evidence)."""
+    return os.environ.get("VERIF_OUT") or boot.VERIF
 PREPARE_FIRST = {"C20"}
 
 
@@ -286,7 +292,7 @@ def match_known(known, prop, viol):
 
 
 def write_failure(prop, viol):
-    d = os.path.join(boot.VERIF, "failures", prop)
+    d = os.path.join(out_dir(), "failures", prop)
     os.makedirs(d, exist_ok=True)
     body = {"property": prop, "sub": viol["sub"], "kind": viol["kind"],
             "message": viol["message"], "case": viol["case"]}
@@ -299,10 +305,10 @@ def write_failure(prop, viol):
 
 def parent_main(prop, modname, tier, seed, nshards, wall):
     t0 = time.time()
-    work = os.path.join(boot.VERIF, ".work", prop)
+    work = os.path.join(out_dir(), ".work", prop)
     os.makedirs(work, exist_ok=True)
     import shutil
-    shutil.rmtree(os.path.join(boot.VERIF, "failures", prop), ignore_errors=True)
+    shutil.rmtree(os.path.join(out_dir(), "failures", prop), ignore_errors=True)
     procs = []
     env = dict(os.environ)
     env["PYTHONHASHSEED"] = "0"
@@ -383,15 +389,15 @@ def parent_main(prop, modname, tier, seed, nshards, wall):
         "wall_s": round(time.time() - t0, 2),
         "violations": len(new),
     }
-    os.makedirs(os.path.join(boot.VERIF, "evidence"), exist_ok=True)
-    with open(os.path.join(boot.VERIF, "evidence", f"{prop}.json"), "w") as f:
+    os.makedirs(os.path.join(out_dir(), "evidence"), exist_ok=True)
+    with open(os.path.join(out_dir(), "evidence", f"{prop}.json"), "w") as f:
         json.dump(evidence, f, indent=1, sort_keys=True)
 
     for v, k in knownhits:
         print(f"KNOWN-FINDING: property={prop} {k['what']}")
     for v, _ in new:
         path = write_failure(prop, v)
-        print(f"VIOLATION property={prop} replay={os.path.relpath(path, boot.VERIF)}")
+        print(f"VIOLATION property={prop} replay={os.path.relpath(path, boot.VERIF) if path.startswith(boot.VERIF) else path}")
         print(f"  sub={v['sub']} kind={v['kind']} :: {v['message'][:400]}")
     print(f"[{prop}] tier={tier} seed={seed} evaluations={merged['evaluations']} "
           f"distinct_nontrivial={len(merged['hashes'])} violations={len(new)} "
